@@ -24,6 +24,7 @@
 //!             out = one ["ok", signature id of the stored bytes, records] | ["err", kind] per key
 //!   ops       in = [[op, ...]]  a call sequence on ONE store holding several buckets; per op one outcome:
 //!               ["w", bucket, key, [records]]  write_cloud_jsonl_vec          -> ["ok", n] | ["err", k]
+//!               ["wo", ...] the same, every record wrapped in a JSON object {"n": i, "v": record}
 //!               ["raw", bucket, key, codec 0..4, [item, ...]]  put_object of a loose JSONL text,
 //!                    encoded with the codec (through ironbeam's auto_detect_writer);
 //!                    item = ["rec", pre, record, post, eol] | ["ws", text, eol] | ["junk", text, eol],
@@ -286,14 +287,38 @@ fn seen_of(st: &Spy) -> Value {
     }
 }
 
+/// records written by a "wo" op come back as {"n": i, "v": record}: hand back the record
+fn unwrap_objects(v: Vec<Value>) -> Vec<Value> {
+    v.into_iter()
+        .map(|x| match x {
+            Value::Object(mut m) if m.len() == 2 && m.contains_key("n") => m.remove("v").unwrap_or(Value::Null),
+            other => other,
+        })
+        .collect()
+}
+
+#[derive(serde::Serialize, serde::Deserialize, PartialEq)]
+struct WideRec {
+    id: u64,
+    value: String,
+}
+
 fn run_ops(input: &Value) -> Value {
     let st = Spy::new();
     let mut outs: Vec<Value> = Vec::new();
     for op in input[0].as_array().unwrap() {
         let a = |i: usize| str_of(&op[i]);
         let o = match op[0].as_str().unwrap() {
-            "w" => {
-                let recs: Vec<Value> = op[3].as_array().unwrap().clone();
+            "w" | "wo" => {
+                let mut recs: Vec<Value> = op[3].as_array().unwrap().clone();
+                if op[0] == "wo" {
+                    // every record as a JSON object (what a struct serialises to)
+                    recs = recs
+                        .into_iter()
+                        .enumerate()
+                        .map(|(i, v)| Value::Object([("n".to_string(), json!(i)), ("v".to_string(), v)].into_iter().collect()))
+                        .collect();
+                }
                 match write_cloud_jsonl_vec(&st, &a(1), &a(2), &recs) {
                     Ok(n) => json!(["ok", n]),
                     Err(e) => json!(["err", format!("{:?}", e.kind)]),
@@ -313,7 +338,7 @@ fn run_ops(input: &Value) -> Value {
             "r" => match read_cloud_jsonl_vec::<Value, _>(&st, &a(1), &a(2)) {
                 Ok(v) => {
                     let sig = signature_id(&st.get_object(&a(1), &a(2)).unwrap());
-                    json!(["ok", sig, v])
+                    json!(["ok", sig, unwrap_objects(v)])
                 }
                 Err(e) => json!(["err", format!("{:?}", e.kind)]),
             },
@@ -325,7 +350,7 @@ fn run_ops(input: &Value) -> Value {
                 json!([o1, o2, seen])
             }
             "g" => match read_cloud_jsonl_glob::<Value, _>(&st, &a(1), &a(2)) {
-                Ok(v) => json!(["ok", v]),
+                Ok(v) => json!(["ok", unwrap_objects(v)]),
                 Err(e) => json!(["err", format!("{:?}", e.kind)]),
             },
             _ => panic!("op"),
@@ -424,6 +449,25 @@ fn run_wide(input: &Value) -> Value {
     let n = input[1].as_u64().unwrap();
     let width = input[2].as_u64().unwrap() as usize;
     let mode = input[3].as_i64().unwrap();
+    if mode == 2 {
+        // records as structs (JSON objects), payload as in mode 0
+        let recs: Vec<WideRec> = (0..n).map(|i| WideRec { id: i, value: wide_payload(i, width, 0) }).collect();
+        let st = FakeObjectIO::new();
+        let nw = match write_cloud_jsonl_vec(&st, BUCKET, &key, &recs) {
+            Ok(k) => k,
+            Err(e) => return json!(["err", format!("write:{:?}", e.kind)]),
+        };
+        let sig = signature_id(&st.get_object(BUCKET, &key).unwrap());
+        let back: Vec<WideRec> = match read_cloud_jsonl_vec(&st, BUCKET, &key) {
+            Ok(v) => v,
+            Err(e) => return json!(["err", format!("read:{:?}", e.kind)]),
+        };
+        let sum: u64 = back.iter().map(|r| r.id).sum();
+        let consecutive = back.iter().enumerate().all(|(i, r)| r.id == i as u64);
+        let total: usize = back.iter().map(|r| r.value.chars().count()).sum();
+        let firsts: u64 = back.iter().map(|r| r.value.chars().next().map_or(0, |c| c as u64)).sum();
+        return json!(["ok", nw, back.len(), sum, consecutive, total, back == recs, firsts, sig]);
+    }
     let recs: Vec<(u64, String)> = (0..n).map(|i| (i, wide_payload(i, width, mode))).collect();
     let st = FakeObjectIO::new();
     let nw = match write_cloud_jsonl_vec(&st, BUCKET, &key, &recs) {
@@ -675,7 +719,7 @@ fn nontrivial(kind: &str, input: &Value, out: &Value) -> bool {
         "ops" => {
             // at least two calls that change the store and one that observes it
             let ops = input[0].as_array().unwrap();
-            let is_mut = |o: &Value| matches!(o[0].as_str(), Some("w" | "raw" | "del" | "cp"));
+            let is_mut = |o: &Value| matches!(o[0].as_str(), Some("w" | "wo" | "raw" | "del" | "cp"));
             ops.iter().filter(|o| is_mut(o)).count() >= 2 && ops.iter().any(|o| !is_mut(o))
         }
         "readglob" => {
@@ -1265,7 +1309,8 @@ fn gen_ops(rng: &mut SplitMix64, pool: &[Value]) -> Vec<Value> {
         let b = *rng.pick(&buckets);
         let k = rng.pick(&keys).clone();
         let o = match rng.below(100) {
-            0..=34 => json!(["w", b, k, gen_records(rng, pool, 4)]),
+            0..=22 => json!(["w", b, k, gen_records(rng, pool, 4)]),
+            23..=34 => json!(["wo", b, k, gen_records(rng, pool, 4)]),
             35..=44 => json!(["raw", b, k, rng.below(5), gen_raw_items(rng, pool, true)]),
             45..=56 => json!(["del", b, k]),
             57..=64 => json!(["cp", b, k, *rng.pick(&buckets), rng.pick(&keys).clone()]),
@@ -1480,15 +1525,12 @@ fn generate_more(seed: u64, tier: Tier, em: &mut Emitter) {
             &["ops", "loose-text", "junk-line"],
         );
     }
-    let nops = if thorough { 6000 } else { 350 };
-    for _ in 0..nops {
-        let ops = gen_ops(&mut rng, &pool);
-        emit(em, "ops", json!([ops]), &["ops", "random"]);
-    }
-
-    // ---- 11. many objects in one bucket (listing page sizes: 1000 on the large providers)
+    // ---- 11. many objects in one bucket (listing page sizes: 1000 on the large providers); these
+    //          cases are costly to judge, so they are emitted interleaved with the random call
+    //          sequences below (check.py cuts the case stream into consecutive shards)
+    let mut heavy: Vec<(&str, Value, bool, Vec<&str>)> = Vec::new();
     let many_ns: Vec<u64> = if thorough {
-        vec![0, 1, 999, 1000, 1001, 1023, 1024, 1025, 2000, 2001, 4095, 4096, 4097, 9999, 10000, 10001, 65536, 100000]
+        vec![0, 1, 999, 1000, 1001, 1023, 1024, 1025, 2000, 2001, 4095, 4096, 4097, 9999, 10000, 10001, 32768, 65536]
     } else {
         vec![999, 1000, 1001, 1024, 2001, 4097, 10001]
     };
@@ -1499,20 +1541,35 @@ fn generate_more(seed: u64, tier: Tier, em: &mut Emitter) {
             (2, vec!["*", "1*", "??"]),
         ] {
             for p in pats {
-                emit_nt(em, "many", json!([0, style, n, p]), n > 1, &["many-objects", "expand"]);
+                heavy.push(("many", json!([0, style, n, p]), n > 1, vec!["many-objects", "expand"]));
             }
         }
     }
     if !thorough {
-        emit_nt(em, "many", json!([0, 0, 65536, "part-6553*"]), true, &["many-objects", "expand"]);
-        emit_nt(em, "many", json!([0, 1, 65536, "d6/part-6*"]), true, &["many-objects", "expand"]);
-        emit_nt(em, "many", json!([0, 2, 20000, "**"]), true, &["many-objects", "expand"]);
+        heavy.push(("many", json!([0, 0, 65536, "part-6553*"]), true, vec!["many-objects", "expand"]));
+        heavy.push(("many", json!([0, 1, 65536, "d6/part-6*"]), true, vec!["many-objects", "expand"]));
+        heavy.push(("many", json!([0, 2, 20000, "**"]), true, vec!["many-objects", "expand"]));
     }
     let read_ns: Vec<u64> = if thorough { vec![1, 2, 999, 1000, 1001, 1024, 1025, 2048, 2049, 3000] } else { vec![999, 1000, 1001, 1025] };
     for &n in &read_ns {
         for (style, p) in [(3i64, "**"), (3, "k*.gz"), (3, "k1*"), (0, "part-*"), (1, "d0/*")] {
-            emit_nt(em, "many", json!([1, style, n, p]), n > 1, &["many-objects", "read"]);
+            heavy.push(("many", json!([1, style, n, p]), n > 1, vec!["many-objects", "read"]));
         }
+    }
+
+    heavy.reverse();
+    let nops = if thorough { 6000 } else { 350 };
+    for i in 0..nops {
+        let ops = gen_ops(&mut rng, &pool);
+        emit(em, "ops", json!([ops]), &["ops", "random"]);
+        if i % 3 == 0 {
+            if let Some((kind, input, nt, tags)) = heavy.pop() {
+                emit_nt(em, kind, input, nt, &tags);
+            }
+        }
+    }
+    while let Some((kind, input, nt, tags)) = heavy.pop() {
+        emit_nt(em, kind, input, nt, &tags);
     }
 
     // ---- 12. wide payloads: > 1 MiB decoded per object, long single lines, for every codec
@@ -1522,14 +1579,16 @@ fn generate_more(seed: u64, tier: Tier, em: &mut Emitter) {
         vec!["w", "w.gz", "w.zst", "w.bz2", "w.xz"]
     };
     let shapes: Vec<(u64, u64)> = if thorough {
-        vec![(1, 1 << 21), (1, 1 << 22), (3, 1 << 20), (5, (1 << 20) + 1), (64, 1 << 15), (1024, 1 << 11), (40, 70000), (70000, 40), (300, 10000)]
+        vec![(1, 1 << 21), (1, 1 << 22), (3, 1 << 20), (5, (1 << 20) + 1), (64, 1 << 15), (1024, 1 << 11), (40, 70000), (70000, 40), (300, 10000), (17, 1 << 20), (1, (1 << 24) + 1), (65, 1 << 20)]
     } else {
-        vec![(1, 1 << 21), (3, 1 << 20), (64, 1 << 15), (1024, 1 << 11), (40, 70000)]
+        vec![(1, 1 << 21), (3, 1 << 20), (64, 1 << 15), (1024, 1 << 11), (40, 70000), (17, 1 << 20), (1, (1 << 24) + 1)]
     };
     for key in &wide_keys {
         for &(n, w) in &shapes {
             emit_nt(em, "wide", json!([key, n, w, 0]), true, &["wide", "compressible"]);
         }
+        emit_nt(em, "wide", json!([key, 5, 300_000, 2]), true, &["wide", "structs"]);
+        emit_nt(em, "wide", json!([key, 3000, 33, 2]), true, &["wide", "structs"]);
         emit_nt(em, "wide", json!([key, 5, 300_000, 1]), true, &["wide", "random-letters"]);
         emit_nt(em, "wide", json!([key, 2000, 700, 1]), true, &["wide", "random-letters"]);
     }
